@@ -643,14 +643,54 @@ class Resolver:
             if idx == 0:
                 return ("binop", t[1][:-len("WithOverflow")], t[2], t[3])
             return ("overflow_flag", t)
+        # projection distributes over the alternatives of a multiply assigned local (one Try::branch per return site
+        # of an inlined helper)
+        if t[0] == "phi" and variant is not None:
+            alts = []
+            for a in t[1]:
+                x = self._project(a, name, idx, variant)
+                if x not in alts:
+                    alts.append(x)
+            return alts[0] if len(alts) == 1 else ("phi", tuple(alts))
         # Try::branch(x) as Continue .0  -> ok(x)
         if t[0] == "call" and t[1].endswith("::branch") and variant == "Continue":
-            return ("ok", t[2][0])
+            return self._ok(t[2][0])
         if variant in ("Some", "Ok") and name == "0":
-            return ("ok", t)
+            return self._ok(t)
         if variant:
             return ("field", t, "%s.%s" % (variant, name))
         return ("field", t, name)
+
+    def _ok(self, t):
+        """success payload of a Result / Option valued tree: alternatives that are certainly Err / None are dropped and
+        literal Ok(v) / Some(v) are unwrapped (the payload of `Ok(v)?` is v)"""
+        r = self._ok_norm(t)
+        return r if r is not None else ("ok", t)
+
+    def _ok_norm(self, t, depth=0):
+        if depth > 8:
+            return ("ok", t)
+        k = t[0]
+        if k == "phi":
+            alts = []
+            for a in t[1]:
+                x = self._ok_norm(a, depth + 1)
+                if x is not None and x not in alts:
+                    alts.append(x)
+            if not alts:
+                return None
+            return alts[0] if len(alts) == 1 else ("phi", tuple(alts))
+        if k == "agg" and t[1][0] == "adt" and (t[1][1].endswith("result::Result") or t[1][1].endswith("option::Option")):
+            if t[1][2] in ("Ok", "Some") and t[2]:
+                return t[2][0]
+            if t[1][2] in ("Err", "None"):
+                return None
+        if k == "call":
+            c = t[1]
+            prog = getattr(self.fn, "program", None)
+            if c.endswith("::from_residual") or (prog is not None and prog.is_always_err(c)):
+                return None
+        return ("ok", t)
 
     def local(self, n, depth=0, seen=frozenset()):
         fn = self.fn
